@@ -34,6 +34,23 @@ pub fn install_hook() {
     }));
 }
 
+/// Like [install_hook], but also prints the panic in the standard form (used by the sanitizer workloads, whose
+/// driver classifies a failing process by its stderr)
+pub fn install_printing_hook() {
+    std::panic::set_hook(Box::new(|info| {
+        let message = if let Some(s) = info.payload().downcast_ref::<&str>() {
+            s.to_string()
+        } else if let Some(s) = info.payload().downcast_ref::<String>() {
+            s.clone()
+        } else {
+            "<non-string panic payload>".to_string()
+        };
+        let location = info.location().map(|l| format!("{}:{}", l.file(), l.line())).unwrap_or_default();
+        eprintln!("thread panicked at {location}:\n{message}");
+        LAST.with(|l| *l.borrow_mut() = Some(PanicInfo { message, location }));
+    }));
+}
+
 /// Run `f`, returning Err(PanicInfo) if it panicked (on this thread).
 pub fn guard<T>(f: impl FnOnce() -> T + UnwindSafe) -> Result<T, PanicInfo> {
     LAST.with(|l| *l.borrow_mut() = None);
@@ -57,9 +74,18 @@ pub fn is_debug_assert_site(p: &PanicInfo) -> bool {
     use std::sync::OnceLock;
     static SITES: OnceLock<Vec<String>> = OnceLock::new();
     let sites = SITES.get_or_init(|| {
-        let exe = std::env::current_exe().ok();
-        let f = exe.and_then(|e| e.parent().map(|d| d.join("debug_assert_sites.txt")));
-        f.and_then(|f| std::fs::read_to_string(f).ok()).map(|s| s.lines().map(|l| l.trim().to_string()).filter(|l| !l.is_empty()).collect()).unwrap_or_default()
+        // next to the binary (bin/), or - for the sanitizer / interpreter builds, whose binaries live in their
+        // own target directories - in the bin/ directory of the checkout the crate was built from
+        let mut candidates: Vec<std::path::PathBuf> = vec![];
+        if let Ok(e) = std::env::current_exe() {
+            if let Some(d) = e.parent() {
+                candidates.push(d.join("debug_assert_sites.txt"));
+            }
+        }
+        for up in ["../bin", "../../bin"] {
+            candidates.push(std::path::Path::new(env!("CARGO_MANIFEST_DIR")).join(up).join("debug_assert_sites.txt"));
+        }
+        candidates.iter().find_map(|f| std::fs::read_to_string(f).ok()).map(|s| s.lines().map(|l| l.trim().to_string()).filter(|l| !l.is_empty()).collect()).unwrap_or_default()
     });
     sites.iter().any(|s| p.location.ends_with(s.as_str()))
 }
